@@ -13,7 +13,18 @@ NOT_APPLICABLE = {
 
 
 def register(pid, text, note, technique, design_ref):
+    import re
+    assert re.match(r"^C\d\d$", pid), "bad property id %r" % (pid,)
+    assert pid not in CHECKS, "registered twice: %s" % pid
     CHECKS[pid] = dict(text=text, note=note, technique=technique, design_ref=design_ref)
+
+
+def check_complete():
+    """every property is either claimed or not applicable (the properties file is given and fixed)"""
+    ids = [json.loads(l)["id"] for l in open(os.path.join(VERIF, "properties.jsonl")) if l.strip()]
+    missing = [i for i in ids if i not in CHECKS and i not in NOT_APPLICABLE]
+    extra = [i for i in list(CHECKS) + list(NOT_APPLICABLE) if i not in ids]
+    assert not missing and not extra, "MANIFEST would not cover the properties: missing %r, unknown %r" % (missing, extra)
 
 
 register("C09",
@@ -54,11 +65,11 @@ register("C18",
          "Trusted: Coq kernel; translator/gen_refresh.py (fail-closed definitional interpreter, validated against CPython each run) and the statement semantics Model/RefreshProg.exec; Model/Refresh.v is hand-written (modelled-not-verified, one dimension + sum + count standing for any decomposable rollup) and tied by differential testing; DuckDB and typer CliRunner as drivers; the API source statement (bucket-level watermark predicate) is the harness's choice. No axioms.",
          "Coq induction over operation histories (pointwise bag algebra) + refinement of the translator-regenerated statement programs; correspondence on executed histories incl. the CLI", "DESIGN.md section 6/C18")
 
-register("C01 Regenerated on every run (Gen/Small_gen.v, the method's AST executed on scripted names): the aggregate text of _build_measure_aggregation_sql for every aggregation literal; C01_aggregate_table / C01_aggregate_shape tie it to the aggregate the plan applies to the measure's raw column.",
+register("C01",
          "Machine-checked Coq theorem C01_rows: for every single-model definition, query and table of ANY size the relational plan the generator emits (CTE of dimension expressions and raw measure columns with CASE-WHEN metric filters, "
          "COUNT->1, COUNT DISTINCT->key, outer aggregation with GROUP BY positions, ungrouped branch, ORDER BY/OFFSET/LIMIT) returns exactly the rows of the reference semantics (one row per distinct dimension tuple among the filtered rows; "
          "each metric its aggregation over exactly the group's rows that pass its own filters, SQL NULL semantics; uninterpreted aggregates receive exactly that bag). "
-         "The plan model is hand-written and tied to generator.py + DuckDB by executing random definitions/tables/queries against both; the same cases are compared with the reference semantics (property oracle).",
+         "The plan model is hand-written and tied to generator.py + DuckDB by executing random definitions/tables/queries against both; the same cases are compared with the reference semantics (property oracle). Regenerated on every run (Gen/Small_gen.v, the method's AST executed on scripted names): the aggregate text of _build_measure_aggregation_sql for every aggregation literal; C01_aggregate_table / C01_aggregate_shape tie it to the aggregate the plan applies to the measure's raw column.",
          "Trusted: Coq kernel; Model/Sem.v + Model/Single.v hand-written (modelled-not-verified), tied by differential testing; DuckDB evaluates expressions/aggregates; hypothesis composite_cd_free (count_distinct-without-sql on a composite key is known finding C01-K2). No axioms.",
          "Coq proof plan = reference semantics (induction over rows); model/implementation correspondence on generated cases via vm_compute", "DESIGN.md section 6/C01")
 
@@ -82,11 +93,11 @@ register("C03",
          "Trusted: translator/pyinterp.py + gen_multifact.py (fail-closed definitional interpreter, validated against CPython each run); Coq kernel; Model/MultiFact.v hand-written, tied by differential testing; DuckDB as oracle. The theorems cover the outer join; that each sub-query equals the single-metric query is by construction of the code (same generate() call) and checked by the oracle. No axioms.",
          "Coq proof about the outer-join combinator + model/implementation correspondence; oracle from the implementation's own single-metric queries; translator-regenerated verdict table of the multi-fact decision", "DESIGN.md section 6/C03")
 
-register("C04 Also regenerated: the text _join_conjuncts builds from scripted condition lists (OR conditions parenthesised, joined with AND): C04_conjuncts_table / C04_conjuncts_shape.",
+register("C04",
          "Machine-checked Coq theorems: one conjunction = several filters = any order = applied one after the other under SQL three-valued logic (C04_conj/order/sequential, any filter list, any table); "
          "pushing a filter into the joined model's sub-query and INNER-joining it equals joining all rows and keeping the wide rows whose slot satisfies the filter (C04_pushdown, any wide-row bag); after an INNER step every wide row is connected to a row of the filtered model and later steps keep that slot (semi-join reading); "
          "a metric's own filters touch only its column. Tied to the code through the C02 plan/join model executed on filtered queries, and by metamorphic runs on the implementation: list / one conjunction / reversed / segment with {model} / segment with bare columns must agree, "
-         "a metric-value filter must equal post-filtering, a metric filter must not change other metrics. Partial: segment resolution, the text-level model.field rewriting and relative dates are exercised end to end only. Regenerated on every run: how _classify_filters_for_pushdown distributes 141 scripted filter lists (scripted sqlglot trees); C04_classify_table (model == code) and C04_classify_sound (a pushed-down conjunct only mentions columns of its model, no metric).",
+         "a metric-value filter must equal post-filtering, a metric filter must not change other metrics. Partial: segment resolution, the text-level model.field rewriting and relative dates are exercised end to end only. Regenerated on every run: how _classify_filters_for_pushdown distributes 141 scripted filter lists (scripted sqlglot trees); C04_classify_table (model == code) and C04_classify_sound (a pushed-down conjunct only mentions columns of its model, no metric). Also regenerated: the text _join_conjuncts builds from scripted condition lists (OR conditions parenthesised, joined with AND): C04_conjuncts_table / C04_conjuncts_shape.",
          "Trusted: translator/pyinterp.py + gen_classify.py (fail-closed, validated against CPython each run; sqlglot's parse trees are scripted); Coq kernel; Model/Sem.v, Model/Join.v, Model/Plan.v hand-written (tied by differential testing); sqlglot parse/print of filters as oracle; the C02 finding classes K1/K2 exempt the affected metric columns. No axioms.",
          "Coq proofs about 3VL filters and join-step pushdown; metamorphic + model/implementation correspondence; translator-regenerated pushdown classification table", "DESIGN.md section 6/C04")
 
@@ -104,11 +115,11 @@ register("C15",
          "CPython hash randomisation as the only source of set-order nondeterminism. No axioms.",
          "Coq proof of permutation-invariance of sorted iteration + regenerated site and persistent-write obligations; multi-process byte comparison", "DESIGN.md section 6/C15")
 
-register("C07 Also regenerated: how _parse_dimension_refs splits references (C07_dimref_table); C07_dimref_roundtrip: for ANY reference text p and granularity word g, p__g is read back as (p, g).",
+register("C07",
          "Machine-checked Coq theorems for EVERY timestamp (Z microseconds, unbounded): truncation to hour/day/ISO week/month/quarter/year is the floor onto the bucket starts (C07_floor; era-periodicity lemmas + one exhaustive 400-year sweep lifted to all Z); "
          "additive roll-up of SUM and COUNT from any nested finer granularity for every table (C07_additive_*; from floor composition + a regrouping lemma); the default-time-dimension step keeps requested dimensions and adds only a model's default time dimension, only with a requested metric and no requested time dimension; "
          "a granularity on a non-time field is an error. Grouping by several granularities is an instance of C01_rows. Ties: extracted calendar vs DuckDB DATE_TRUNC on calendar edges (thorough: every hour of a 28-year cycle); time-granularity queries vs the Single model; "
-         "the default-dimension function vs its model; additivity and the iff re-checked directly on the implementation. Regenerated on every run: what _apply_default_time_dimensions returns on 1008 scripted scenarios; C07_default_table proves the model returns the same list on each.",
+         "the default-dimension function vs its model; additivity and the iff re-checked directly on the implementation. Regenerated on every run: what _apply_default_time_dimensions returns on 1008 scripted scenarios; C07_default_table proves the model returns the same list on each. Also regenerated: how _parse_dimension_refs splits references (C07_dimref_table); C07_dimref_roundtrip: for ANY reference text p and granularity word g, p__g is read back as (p, g).",
          "Trusted: translator/pyinterp.py + gen_timedim.py (fail-closed, validated against CPython each run); Coq kernel (vm_compute sweeps); Base/Calendar.v hand-written, tied to DuckDB by correspondence; Model/TimeDim.v hand-written model; extraction (ExtrOcamlBasic). Only the completeness half of the default-dimension iff is checked by the oracle rather than proved. No axioms.",
          "Coq proof (calendar floor for all Z, regrouping induction) + correspondence vs DuckDB and the generator; translator-regenerated behaviour table of the default-time-dimension step", "DESIGN.md section 6/C07")
 
@@ -122,44 +133,44 @@ register("C17",
          "Lenient readings stated: trailing window = the RANGE the code declares (t-N..t), offsets that do not divide the period are the code's documented approximations; only day-unit windows are modelled. No axioms.",
          "Coq proof (sorted-partition / frame lemmas, gap-free LAG induction, aggregate permutation invariance) + regenerated offset table; model/implementation correspondence on generated series", "DESIGN.md section 6/C17")
 
-register("C08 Also regenerated: what _try_use_preaggregation asks the matcher and re-checks on 814 scripted scenarios (C08_route_table); C08_all_granularities: for ANY routed query every requested granularity is the one the matcher was asked about or one the matched rollup serves (the proof-side form of the repair cad981a); C08_route_asks.",
+register("C08",
          "Machine-checked Coq theorems for tables of ANY size, any truncation function and ANY predicate on the rollup key (membership in a result group and every filter over rollup columns are such predicates): "
          "re-aggregating the rollup built by the materialisation statement equals aggregating the base rows for SUM, COUNT (as SUM of counts), MIN and MAX, and the routed query has a group exactly when the base query has (C08_sum/count/min/max/groups); "
          "rolling the time bucket up to a coarser granularity is exact for nested pairs for every timestamp (C08_granularity) and the code's granularity test only admits nested pairs; "
          "the code's `_is_measure_derivable`, REGENERATED from preagg_matcher.py on every run, admits a metric only without own filters, listed in the rollup, with sum/count/min/max, or avg with a count measure (C08_derivable_sound); "
          "witnesses show why median/stddev, filtered measures, AVG-stored-as-AVG and raw-timestamp filters must not be routed. Tied to the code by executing generated rollups/queries: compile(use_preaggregations=True) vs False on a database whose "
          "rollups were built with the layer's own statement, every routing decision audited against the Coq criterion `exactly_derivable`, and Model/Preagg evaluated in Coq against the routed rows. "
-         "Partial: the routing decision procedure (can_satisfy_query, filter-column extraction, scoring) is audited on generated cases, not modelled; known-finding classes K3 (avg), K6 (raw time filter). Regenerated on every run: the verdicts of can_satisfy_query on 1920 scripted scenarios; C08_matcher_table (model == code) and C08_matcher_sound (an admitted query only uses rollup columns, derivable metrics and a passed granularity test).",
+         "Partial: the routing decision procedure (can_satisfy_query, filter-column extraction, scoring) is audited on generated cases, not modelled; known-finding classes K3 (avg), K6 (raw time filter). Regenerated on every run: the verdicts of can_satisfy_query on 1920 scripted scenarios; C08_matcher_table (model == code) and C08_matcher_sound (an admitted query only uses rollup columns, derivable metrics and a passed granularity test). Also regenerated: what _try_use_preaggregation asks the matcher and re-checks on 814 scripted scenarios (C08_route_table); C08_all_granularities: for ANY routed query every requested granularity is the one the matcher was asked about or one the matched rollup serves (the proof-side form of the repair cad981a); C08_route_asks. C08_routed_granularities_exact composes the regenerated links (_try_use_preaggregation -> can_satisfy_query -> _is_granularity_compatible -> calendar truncation): for a routed query every requested granularity of every timestamp is computed exactly from the rollup's bucket.",
          "Trusted: translator/pyinterp.py + gen_satisfy.py (fail-closed, validated against CPython each run); Coq kernel; gen_derivable / gen_grancompat translators (fail-closed, validated each run); Model/Preagg.v hand-written (one coded dimension and non-NULL integer values stand for the dimension tuple / measure values), tied by differential testing; DuckDB as oracle. No axioms.",
          "Coq proof (regrouping of decomposable aggregates over a partition, semilattice fold for min/max, calendar nesting) over a hand-written rollup model + translator-regenerated derivability; routed-vs-unrouted execution and decision audit; translator-regenerated matcher verdict table", "DESIGN.md section 6/C08")
 
-register("C06 Regenerated on every run: what _wrap_with_fill_nulls returns for scripted fill values (numbers, booleans, strings with quotes): C06_fill_table, and C06_fill_quotes_doubled (any text value is quoted with its quotes doubled).",
+register("C06",
          "Machine-checked Coq theorems for formulas of ANY nesting depth and any component names: the value of a formula whose references were replaced by the components' formulas is the formula applied to the components' values (C06_compositional, SQL NULL semantics); "
          "the code's expansion -- one dependency after the other, whole-word replacement by a parenthesised component text -- equals the simultaneous substitution when no replacement mentions a later name (C06_subst), and on a rendered formula it yields exactly "
          "the rendering of the substituted tree (C06_text_expansion); names that are substrings of one another never interfere (C06_names); ratio = n / NULLIF(d, 0) is NULL on a zero / NULL denominator, fill_nulls_with replaces a NULL result; tokenisation is lossless. "
          "Model/Formula.v is hand-written and tied to the code at TEXT level: `build`, evaluated in Coq on the real leaf SQL and the real dependency sets, must equal the string SQLGenerator._build_metric_sql returns for every generated composite; "
          "the property oracle evaluates each composite's formula (recursively, in Coq) over the implementation's own component columns of the same rows; unrelated models/metrics are added and must change nothing; twin composites of two models are selected together. "
-         "Known-finding classes K1 (graph-level metric spelled like a measure), K2 (same measure name on two models in one formula), K3 (inline-aggregate metric mentioning a column that is also a metric name).",
+         "Known-finding classes K1 (graph-level metric spelled like a measure), K2 (same measure name on two models in one formula), K3 (inline-aggregate metric mentioning a column that is also a metric name). Regenerated on every run: what _wrap_with_fill_nulls returns for scripted fill values (numbers, booleans, strings with quotes): C06_fill_table, and C06_fill_quotes_doubled (any text value is quoted with its quotes doubled).",
          "Trusted: Coq kernel; Model/Formula.v hand-written (tied by the text comparison and the value oracle); sqlglot's column extraction gives the dependency set, DuckDB parses/evaluates the expanded text; rows whose reference value involves x/0 (IEEE inf/nan in DuckDB) are outside the fragment. No axioms.",
          "Coq proof (token-level substitution lemma, tree induction) + text-level model/implementation correspondence; formula-over-own-components oracle and metamorphic runs", "DESIGN.md section 6/C06")
 
-register("C20 Regenerated on every run: how references are split into dimension and granularity (C20_dimref_table, C20_dimref_roundtrip; the witness of C20-K6 as C20_dunder_name_refuted).",
+register("C20",
          "Machine-checked Coq theorems for graphs and reference lists of ANY size: validate_query reports every unknown model / metric / graph-level metric / dimension, every unknown granularity, every granularity on a non-time dimension and every unqualified dimension (C20_reject_*); "
          "every metric reference and EVERY dimension reference -- with or without a granularity suffix -- puts its model into the join check, and two registered query models that no chain of relationships connects are reported (C20_reject_disconnected, over the C10 graph model and its path-search proofs); "
          "an accepted query resolves all references and only touches joinable models; removing '_cte' recovers the model name from its CTE alias for every name that does not contain '_cte' (C20_cte_inverse), and not otherwise (refuted by witness). "
          "Model/Valid.v is hand-written and tied by comparing the error kinds of the real validate_query on generated graphs and reference lists; compile() must raise QueryValidationError exactly when errors are reported. "
          "Partial: 'accepted definitions are usable' is decided by executing every single-field query (12-13 per definition) of generated accepted definitions with adversarial legal names on a table with the declared columns -- an executed check, not a theorem; "
-         "six narrow known-finding classes (K1 _cte in model names, K2 keywords, K3 <measure>_raw dimension, K4 model names needing quotes, K5 fields named like raw columns used by inline expressions / segments, K6 '__' in a dimension name). Regenerated on every run: the errors validate_query reports on 154 scripted scenarios; C20_validate_table proves the validation model reports the same errors.",
+         "six narrow known-finding classes (K1 _cte in model names, K2 keywords, K3 <measure>_raw dimension, K4 model names needing quotes, K5 fields named like raw columns used by inline expressions / segments, K6 '__' in a dimension name). Regenerated on every run: the errors validate_query reports on 154 scripted scenarios; C20_validate_table proves the validation model reports the same errors. Regenerated on every run: how references are split into dimension and granularity (C20_dimref_table, C20_dimref_roundtrip; the witness of C20-K6 as C20_dunder_name_refuted).",
          "Trusted: translator/pyinterp.py + gen_validate.py (fail-closed, validated against CPython each run; the error-text classifier is trusted); Coq kernel; Model/Valid.v hand-written (tied by differential testing), reusing Model/Graph.v; DuckDB decides 'executes without error'; validate_model / validate_metric / pydantic constraints are exercised (registration must not raise for the generated definitions), not modelled. No axioms.",
          "Coq proof (membership lemmas over the validation function, C10 path-search completeness, string lemma for _cte) + model/implementation correspondence; executed single-field queries; translator-regenerated validation error table", "DESIGN.md section 6/C20")
 
-register("C05 Regenerated on every run (Gen/RewriterTable_gen.v): what _extract_metrics_and_dimensions / _resolve_column make of 330 scripted SELECT lists (their ASTs executed against scripted sqlglot classes and a scripted graph); C05_extract_table proves the extraction model returns the same metrics, dimensions and aliases and rejects exactly the lists the method raises on.",
+register("C05",
          "Machine-checked Coq theorems for SELECT trees with ANY number of fields and filters: every rendering of a structured query -- FROM a model or FROM metrics with model-qualified names, or a single-model query with unqualified names; "
          "with or without aliases and granularity suffixes; a WHERE conjunction; ORDER BY / LIMIT / OFFSET -- is rewritten to exactly that structured query (C05_qualified, C05_unqualified, C05_where_split, C05_or_kept), after which both paths call the same generator; "
          "SQL whose FROM names no model passes through (C05_passthrough_*); explicit JOINs, function calls, literals and unknown fields are rejected (C05_reject_*). "
          "Model/Rewriter.v is hand-written and tied to query_rewriter.py by evaluating it on generated SELECT trees next to the real QueryRewriter on the printed SQL text (extracted metrics / dimensions / aliases / filters / order / limit / offset, or rejection / passthrough). "
          "The property's own observation is executed: layer.sql(text) rows and column names vs the structured query for seven renderings incl. CTE / sub-select wrapping; passthrough text vs the database. "
-         "Partial: sqlglot's text -> tree step, yardstick syntax, multi-statement input and the CTE / sub-select rewriting are outside the model (exercised end to end).",
+         "Partial: sqlglot's text -> tree step, yardstick syntax, multi-statement input and the CTE / sub-select rewriting are outside the model (exercised end to end). Regenerated on every run (Gen/RewriterTable_gen.v): what _extract_metrics_and_dimensions / _resolve_column make of 330 scripted SELECT lists (their ASTs executed against scripted sqlglot classes and a scripted graph); C05_extract_table proves the extraction model returns the same metrics, dimensions and aliases and rejects exactly the lists the method raises on.",
          "Trusted: Coq kernel; Model/Rewriter.v hand-written (tied by differential testing); sqlglot parser/printer; the harness's SQL printer for the renderings; DuckDB. No axioms.",
          "Coq proof (induction over projection and filter lists) over a hand-written model of the extraction + model/implementation correspondence; SQL-vs-structured execution oracle", "DESIGN.md section 6/C05")
 
@@ -196,6 +207,7 @@ PENDING = "check not built yet in this revision (see DESIGN.md section 10 build 
 
 
 def main():
+    check_complete()
     props = [json.loads(l)["id"] for l in open(os.path.join(VERIF, "properties.jsonl"))]
     checks = []
     for pid in props:
